@@ -782,6 +782,14 @@ impl Board {
     }
 }
 
+#[cfg(rce_verif)]
+impl Board {
+    /// Verification accessor: the en-passant file (private field).
+    pub const fn verif_en_passant_file(&self) -> Option<u8> {
+        self.en_passant_file
+    }
+}
+
 impl fmt::Display for Board {
     /// Prints out a symbolic representation of the board in an 8x8 grid.
     fn fmt(&self, f: &mut fmt::Formatter) -> fmt::Result {
